@@ -225,7 +225,8 @@ def body(chk):
 
     pf = os.path.join(chk.scratch, "points.json")
     cfg = "MC_PyIndex_quick" if chk.tier == "quick" else "MC_PyIndex_thorough"
-    r = tlc.run_ok("MC_PyIndex", cfg, workers=16, env={"POINTS_FILE": pf}, timeout=3000, coverage=True)
+    sf = os.path.join(chk.scratch, "strides.json")
+    r = tlc.run_ok("MC_PyIndex", cfg, workers=16, env={"POINTS_FILE": pf, "STRIDES_FILE": sf}, timeout=3000, coverage=True)
     chk.tlc_stats(r)
     for v in r.violated:
         chk.violation(f"model:{v}", f"TLC: {v} violated in PyIndex", {"tlc": r.out[-3000:]})
@@ -265,6 +266,10 @@ def body(chk):
                     pairs.append(({"kind": "slice", "a": [0], "b": [0], "s": []}, {"kind": "slice", "a": cs, "b": [2], "s": []}, "outer"))
                     pairs.append(({"kind": "slice", "a": [n], "b": [], "s": []}, {"kind": "int", "i": 1}, "outer"))
                 tasks.append(dict(n=n, sample=sample, rpc=rpc, points=sub, seed=chk.seed + n, pairs=pairs, fs="vtrace" if rpc % 2 else "local"))
+    strides = json.load(open(sf))
+    for j, rpc in enumerate((2, 3, 4, 5) if chk.tier == "quick" else (2, 3, 4, 5, 6, 7, 12, 13, 14)):
+        for sample in (("IU2", "C*8")[j % 2],) if chk.tier == "quick" else ("IU2", "C*8"):
+            tasks.append(dict(n=13, sample=sample, rpc=rpc, points=strides, seed=chk.seed + 13, pairs=[], fs="vtrace" if rpc % 2 else "local"))
     # random larger images: 40 x 17, Hypothesis-style random expressions judged by the twin (and the spec's formulas in Python form are not used)
     L.tables()
     want = [dict(L.SMALL_LEADER), dict(L.SMALL_LEADER, nmap=0), dict(file="volume", nfp=4), dict(file="trailer", nlow=0, lens=[])]
@@ -300,6 +305,23 @@ def body(chk):
     chk.assumptions += ["the in-memory twin (NumPy/xarray on the fully loaded array) is the reference for two-axis outer / vectorised / "
                         "label selections; one-axis expressions are judged by the TLA+ function, which the twin cross-checks every run",
                         "full-image loads equal the file content (C01)"]
+    # selections whose load meets a transient I/O fault: the result is an exception or exactly NumPy's (never extra / missing lines)
+    from harness import imgrun
+
+    fcases = []
+    for j, (nth, consume) in enumerate([(2, 0.0), (2, 0.5), (3, 0.5), (4, 0.0)]):
+        fcases.append(dict(kind=("processed", "signal")[j % 2], sample=("IU2", "C*8")[j % 2], images=[("HH", None, 8, 5)], rpc=2, seed=chk.seed + 4000 + j, fss=["vtrace"],
+                           sels=[("all",), ("slice", 0, 8, 3), ("slice", 7, None, -2), ("list", [0, 3, 6]), ("slice", 2, 7, 1)], origin="transient-fault",
+                           flaky_load=dict(nth=nth, consume=consume)))
+    L.instances([dict(file="image", kind="processed", n=8, ndata=10, bps=2), dict(file="image", kind="signal", n=8, ndata=40, bps=8), dict(file="volume", nfp=3)])
+    for res in checklib.pmap(imgrun.exercise, fcases, chk.scratch):
+        for run in res["runs"]:
+            for ld in run["images"][0]["loads"]:
+                chk.count(1, f"fault:{res['case']['flaky_load']}:{ld['sel']}")
+                if ld["outcome"] == "equal" or (ld["outcome"] == "error" and ld.get("fault_fired")):
+                    continue
+                chk.violation(f"index:fault:{ld['outcome']}", f"selection {ld['sel']} with a transient fault on read #{res['case']['flaky_load']['nth']}: {ld['outcome']}: {ld['msg']}",
+                              {"case": res["case"], "sel": ld["sel"]})
     from harness import sessioncheck
 
     sessioncheck.standard(chk)
